@@ -139,7 +139,7 @@ def prelude(run, report=(), order="others_first"):
     (a Function cached with the sparsity of the first argument, a table shared between Euler groups and keyed only by
     the axis letters, ...) then corrupts the ordinary calls that follow, which the check sees.  The prelude's own
     results are compared with plain numpy; disagreements are reported as violations only by the checks whose property
-    covers them (`report` holds the clause families: "identity", "matrix", "convert"), otherwise they are only counted.
+    covers them (`report` holds the clause families: "identity", "matrix", "convert", "adjoint"), otherwise they are only counted.
     order: "others_first" uses the user-built Euler groups before SO3EulerB321 (so that B321, which everything else
     uses, is the one that inherits their state), "b321_first" the other way round (C07 runs it in a second process)."""
     import cyecca.lie as L
@@ -238,6 +238,13 @@ def prelude(run, report=(), order="others_first"):
                     if np.max(np.abs(M - R)) > tol:
                         bad("convert", f"euler:{tname}:{seq}/to_Matrix", "Euler-angle matrix of a user-built Euler group differs from the product of its axis rotations",
                             {"angles": tri, "got": M.tolist(), "want": R.tolist()})
+                    try:                    # Ad_X y = vee(X y^ X^-1): on SO(3) that is the rotation matrix itself
+                        A = num(G.elem(ca.DM(tri)).Ad()); tick()
+                        if A.shape != (3, 3) or np.max(np.abs(A - R)) > tol:
+                            bad("adjoint", f"euler:{tname}:{seq}/Ad", "Ad of an element of a user-built Euler group is not conjugation (X y^ X^-1 = (R y)^)",
+                                {"angles": tri, "got": A.tolist(), "want": R.tolist()})
+                    except NotImplementedError:
+                        pass
                 except Exception as ex:     # noqa
                     bad("convert", f"euler:{tname}:{seq}/raises", f"{type(ex).__name__}: {ex}", {})
 
